@@ -641,6 +641,15 @@ pub fn make(kind: &'static str, want: Option<&Ty>, env: &Env, s: &mut Sel) -> Op
                 ("zq2: dict.Dict(int, int) : dict.new()\ndict.update(zq2, \"k\", 1)", "zq2: dict.Dict(int, int) : dict.new()\ndict.update(zq2, 1, 1)", true),
                 ("zq2: set.Set(int) : set.from_list([\"a\"])", "zq2: set.Set(int) : set.from_list([1])", false),
                 ("zq2: [(int, str)] : [(1, \"a\"), (2, 3)]", "zq2: [(int, str)] : [(1, \"a\"), (2, \"b\")]", false),
+                // unannotated callees: the requirement on the parameter comes from an operator in the body (parameter as the
+                // right and as the left operand)
+                ("zq1 :: pu zqa -> do ret 2 * zqa end\nzq2 :: zq1(\"s\")", "zq1 :: pu zqa -> do ret 2 * zqa end\nzq2 :: zq1(3)", false),
+                ("zq1 :: pu zqa -> do ret zqa * 2 end\nzq2 :: zq1(\"s\")", "zq1 :: pu zqa -> do ret zqa * 2 end\nzq2 :: zq1(3)", false),
+                ("zq1 :: pu zqa -> bool do 0 < zqa end\nzq2 :: zq1(\"s\")", "zq1 :: pu zqa -> bool do 0 < zqa end\nzq2 :: zq1(3)", false),
+                ("zq1 :: pu zqa -> bool do zqa < 0 end\nzq2 :: zq1(true)", "zq1 :: pu zqa -> bool do zqa < 0 end\nzq2 :: zq1(3)", false),
+                ("zq1 :: pu zqa, zqb -> do ret zqa - zqb end\nzq2 :: zq1(1, \"s\")", "zq1 :: pu zqa, zqb -> do ret zqa - zqb end\nzq2 :: zq1(1, 2)", false),
+                ("zq1 :: pu zqa, zqb -> int do\n    zqc :: zqa + zqb\n    1\nend\nzq2 :: zq1(1, \"s\")", "zq1 :: pu zqa, zqb -> int do\n    zqc :: zqa + zqb\n    1\nend\nzq2 :: zq1(1, 2)", false),
+                ("zq1 :: pu zqa -> do ret 1.5 - zqa end\nzq2 :: zq1(\"s\")", "zq1 :: pu zqa -> do ret 1.5 - zqa end\nzq2 :: zq1(0.5)", false),
                 // members whose declared type is a blob declared further down (`Zqo` above `Zqp`, see add_helpers)
                 ("zq1 :: Zqo { zi: Maybe.Just \"s\" }", "zq1 :: Zqo { zi: Maybe.Just (Zqp { zx: 1 }) }", false),
                 ("zq1 :: Zqo { zi: Maybe.Just 1 }", "zq1 :: Zqo { zi: Maybe.None }", false),
